@@ -73,7 +73,7 @@ CHECKS = {
         accept=["C01"], assumptions=RC_ASSUME, floor=dict(quick=50, thorough=500),
     ),
     "C02": dict(
-        jobs=rc_jobs("c02", "C02", "snap_destruct", focused="c02f", extra=[scen_job("c02", "C02")]),
+        jobs=rc_jobs("c02", "C02", "snap_destruct", focused="c02f", extra=[scen_job("c02", "C02"), dict(name="scen-d10", variant="debug", stage=0, args=["scen", "--which", "d10", "--prop", "C02"], shards=dict(quick=1, thorough=1))]),
         rule=RULE_RC + "the execution contained a destruct attempt (root or cascade) on an object for which a Snapshot record existed",
         accept=["C02"], assumptions=RC_ASSUME, floor=dict(quick=50, thorough=500),
     ),
@@ -201,6 +201,7 @@ CHECKS.update({
                 accept=["C15"], assumptions=EBR_ASSUME, floor=dict(quick=50, thorough=500)),
     "C16": dict(jobs=ebr_jobs("c16", "C16", extra=[
                     dict(name="c16-enum", variant="release", stage=0, args=["c16enum", "--len", "{len}"], shards=dict(quick=1, thorough=1)),
+                    dict(name="scen-d10", variant="debug", stage=0, args=["scen", "--which", "d10", "--prop", "C16"], shards=dict(quick=1, thorough=1)),
                 ]),
                 rule=RULE_EBR + "every execution (the pinned-state model is evaluated after every guard operation); plus the exhaustive enumeration of all single-thread guard programs up to length 6 (quick) / 8 (thorough)",
                 accept=["C16"], assumptions=EBR_ASSUME, floor=dict(quick=50, thorough=500)),
